@@ -35,6 +35,7 @@ var nullary = map[string]func() px.Type{
 	"semverrange": func() px.Type { return types.DefaultSemVerRangeType() },
 	"semver":      func() px.Type { return types.DefaultSemVerType() },
 	"callable":    func() px.Type { return types.DefaultCallableType() },
+	"init":        func() px.Type { return types.DefaultInitType() },
 }
 
 func kindTypeOf(e sx.Sexp) (px.Type, bool) {
@@ -84,6 +85,8 @@ func kindTypeOf(e sx.Sexp) (px.Type, bool) {
 		return types.NewHashType(typeOf(a[0]), typeOf(a[1]), sizeOf(a[2], a[3])), true
 	case "like":
 		return types.NewLikeType(typeOf(a[0]), a[1].MustStr()), true
+	case "init":
+		return types.NewInitType(typeOf(a[0]), nil), true
 	case "struct": // (struct (xNAME s|r|o T)*): plain string key / String['name'] key / Optional['name'] key
 		es := make([]*types.StructElement, 0, len(a))
 		for _, m := range a {
@@ -220,6 +223,13 @@ func kindTypeStr(t px.Type) (string, bool) {
 			}
 		}
 		return "(runtime " + sx.Str(rts).Atom + " " + sx.Str(name).Atom + " " + pat + ")", true
+	case *types.InitType:
+		if len(t.Parameters()) == 0 {
+			return "init", true
+		}
+		if ct, ok := t.Parameters()[0].(px.Type); ok && len(t.Parameters()) == 1 {
+			return "(init " + typeStr(ct) + ")", true
+		}
 	case *types.StructType:
 		xs := []string{}
 		for _, m := range t.Elements() {
@@ -321,6 +331,7 @@ var kindTypeLits = []string{
 	"(struct (x61 o (opt (int 1 2))))", "(struct (x61 s (int 1 2)) (x62 s str))", "(struct (x62 s str) (x61 s (int 1 2)))", "(struct (x62 s (int 1 2)))", "(struct (x61 s any))", "(struct (x61 r any))",
 	"(struct (x4f7074696f6e616c5b2761275d s (int 1 2)))", "(struct (x4e6f74556e6465665b2761275d s (opt (int 1 2))))", "(struct (x61 s (var str undef)))", "(struct (x61 s (var undef str)))",
 	"(struct (x61 s (struct (x62 s str))))", "(struct (x61 s data))", "(struct (x61 s unit))", "(struct (x61030c017409017349 s str))",
+	"init", "(init any)", "(init str)", "(init (int 1 2))", "(init (var str undef))", "(init (var undef str))", "(init init)", "(init (init str))",
 	"(like any x)", "(like str x)", "(like str x61)", "(like str x62)", "(like any x61)", "(like (int 1 2) x61)",
 	"callable", "(callable)", "(callable str)", "(callable (int 1 2))", "(callable str (int 1 2))", "(callable unit str)", "(callable str unit)", "(callable unit)",
 	"(callable (var str undef))", "(callable (var undef str))",
@@ -425,7 +436,7 @@ func randKindType(r *rand.Rand, depth int) string {
 	case 2:
 		return "(coll " + size() + ")"
 	case 3, 4:
-		return "(" + []string{"notundef", "sensitive", "iterable", "iterator", "notundef", "opt"}[r.Intn(6)] + " " + sub() + ")"
+		return "(" + []string{"notundef", "sensitive", "iterable", "iterator", "notundef", "opt", "init"}[r.Intn(7)] + " " + sub() + ")"
 	case 5:
 		if r.Intn(4) == 0 {
 			return "(strs -" + strconv.Itoa(r.Intn(3)) + " " + strconv.Itoa(r.Intn(3)) + ")"
@@ -470,6 +481,14 @@ func mutKindType(r *rand.Rand, t sx.Sexp) (sx.Sexp, bool) {
 			return sx.T("arr", mk("any"), a[0], a[1]), true
 		}
 		return sx.T("coll", a[0], a[1]), a[0].MustInt() >= 0
+	case "init":
+		switch r.Intn(3) {
+		case 0:
+			return mk("init"), true
+		case 1:
+			return sx.T("typ", a[0]), true
+		}
+		return sx.T("init", mutType(r, a[0])), true
 	case "notundef", "sensitive", "iterable", "iterator":
 		switch r.Intn(4) {
 		case 0:
